@@ -102,7 +102,8 @@ def match_schemas(w_schema, r_schema, named_schemas):
         schema = _find_reader_branch(w_schema, r_schema, named_schemas)
         if schema is None:
             raise SchemaResolutionError(error_msg)
-        return schema
+        # The branch may refer by name to a type the writer defines inline
+        return match_schemas(w_schema, schema, named_schemas)
     else:
         # Check for dicts as primitive types are just strings
         if isinstance(w_schema, dict):
